@@ -256,7 +256,9 @@ class WireCore(object):
         raw = bytearray(wire.encode(pkt.cmd, pkt.arg0, pkt.arg1, pkt.data))
         c = self.cfg.get("corrupt")
         if c is not None and self.corrupted is None:
-            eligible = bool(pkt.data) if c["mode"] in ("byte", "bit", "hdr") else True
+            eligible = bool(pkt.data) if c["mode"] in ("byte", "bit", "hdr", "hdr-zero") else True
+            if c["mode"] == "hdr-zero" and wire.payload_sum(pkt.data) == 0:
+                eligible = False
             if eligible:
                 if self.corrupt_seen == c["k"]:
                     if c["mode"] == "byte":
@@ -268,6 +270,8 @@ class WireCore(object):
                     elif c["mode"] == "hdr":
                         i = 16 + c["pos"] % 4
                         raw[i] ^= (c["val"] % 255) + 1
+                    elif c["mode"] == "hdr-zero":
+                        raw[16:20] = b"\0\0\0\0"
                     elif c["mode"] == "cmd":
                         word = c["val"] & 0xFFFFFFFF
                         if word in wire.CMD_NAMES:
